@@ -193,7 +193,11 @@ fn run_search<T: Fl>(job: &Job, seed: u64) {
 }
 
 fn run_est<T: Fl>(job: &Job, seed: u64) {
-    let m = seed_map(seed);
+    // a job may carry its own (scale, offset) for the lattice instead of the seed's
+    let m = match job.params.get("map").and_then(|v| v.as_array()) {
+        Some(a) => (a[0].as_f64().unwrap(), a[1].as_f64().unwrap()),
+        None => seed_map(seed),
+    };
     let metric = Metric::parse(job.s("metric"));
     let n = job.u("n");
     let dim = job.u("dim");
@@ -327,6 +331,18 @@ impl Harness for C04 {
         for n in 1..=3 {
             for (est, values) in [("cls", &CLS_LABELS[..]), ("reg", &REG_TARGETS[..])] {
                 jobs.push(est_job(est, 1, n, Metric::Euclid, &[], values, true));
+            }
+        }
+        // round 9: the same f32 spaces with the lattice step at 2^29 (every distance >= 2.6e8, so the
+        // inverse-distance weights of a row sum to less than the f32 machine epsilon) and at 2^-24
+        for (tag, sc) in [("far", 536870912.0f64), ("near", 0.000000059604644775390625f64)] {
+            for n in 1..=3 {
+                for (est, values) in [("cls", &CLS_LABELS[..]), ("reg", &REG_TARGETS[..])] {
+                    let mut j = est_job(est, 1, n, Metric::Euclid, &[], values, true);
+                    j.name = format!("{}-{}", j.name, tag);
+                    j.params["map"] = json!([sc, 0.0]);
+                    jobs.push(j);
+                }
             }
         }
         // ---- structured larger sets
@@ -561,7 +577,7 @@ impl Harness for C04 {
                     if t { "all of them" } else { "all for n<=27, every 3rd for n=64, every 6th for n=125" },
                     if t { "every k in 0..=n+1 for n<=125, for n=200 k in {0,1,2,3,5,8,n/4,n/2,n-2,n-1,n,n+1,n+7}; every realised radius for n<=64, else radii at ranks {0,1,2,3,m/4,m/2,m-2,m-1}" } else { "every k for n<=12, else k in {0,1,2,3,5,8,n/4,n/2,n-2,n-1,n,n+1,n+7}; radii at ranks {0,1,2,3,m/4,m/2,m-2,m-1} of the distinct distances" }
                 ),
-                "estimators": format!("1-D sequences up to {} points (5 points: Euclidean and Hamming only), 3x3 sequences up to {} points x every labelling over {:?} / {:?} / targets {:?} x k in 0..=n+1 x 2 weights x 2 structures x all queries of the grid; metrics {:?}", est1_max, est2_max, CLS_LABELS, CLS_LABELS2, REG_TARGETS, est_metrics.iter().map(|m| m.name()).collect::<Vec<_>>()),
+                "estimators": format!("1-D sequences up to {} points (5 points: Euclidean and Hamming only), 3x3 sequences up to {} points x every labelling over {:?} / {:?} / targets {:?} x k in 0..=n+1 x 2 weights x 2 structures x all queries of the grid; metrics {:?}; in f32: 1-D sequences up to 3 points at lattice steps 1, 2^29 and 2^-24", est1_max, est2_max, CLS_LABELS, CLS_LABELS2, REG_TARGETS, est_metrics.iter().map(|m| m.name()).collect::<Vec<_>>()),
                 "ring_layouts": format!(
                     "data = centre (origin) + m points equally spaced on a circle of radius r, coordinates rounded to multiples of 2^-20; m in {}; r in {{1, 1.1, 1.3, 1.3^2, 2}}; second ring (m points) in {{none, 2r, 2r half-step offset, r/2, r/2 half-step offset{}}}; order of the ring points in {:?}; centre first or last; 2-D, and 3-D (odd ring-1 positions lifted by r/2, ring 2 in the plane z=-r/2); queries: every data point, arc midpoints of every ring, radius r-1/16 and r+1/16 in 8 directions; per case: both structures x every k in 0..=n+1 x every realised radius and its neighbours; search jobs (dim, metric, float): {}; estimators (one fit+predict of all queries per (layout, labelling, k in 0..=n+1, weight, structure), labels by ring position mod 3{}): m <= {} for {:?}{}",
                     if t { "3..=16".to_string() } else { "3..=8 (all search jobs) and {15, 16} (Euclidean 2-D f64; smaller rings build no node whose child radius exceeds the parent's)".to_string() },
